@@ -61,6 +61,13 @@ pub mod own {
                         node_of(slots, &st[1]).connect(&node_of(slots, &st[2]), pu64(&st[3]));
                         "ok".to_string()
                     }
+                    "oqry" => {
+                        // queries hand out temporary handles; none of them may outlive the call
+                        let (a, b) = (node_of(slots, &st[1]), node_of(slots, &st[2]));
+                        let c1 = a.is_connected(b.key());
+                        let c2 = b.is_connected(a.key());
+                        format!("q {} {}", c1 as u8, c2 as u8)
+                    }
                     "otry" => match node_of(slots, &st[1]).try_connect(&node_of(slots, &st[2]), pu64(&st[3])) {
                         Ok(()) => "ok".to_string(),
                         Err(_) => "err exists".to_string(),
